@@ -87,6 +87,25 @@ class Env:
         return False, None
 
 
+class _ClassBodyEnv(Env):
+    """names visible while a class-level constant is evaluated: the class-level names bound in the body (an initialiser may use
+    an earlier one), looked up on demand"""
+
+    def __init__(self, ev, mod, cls):
+        Env.__init__(self)
+        self.ev, self.mod, self.cls = ev, mod, cls
+
+    def lookup(self, name):
+        if name in self.vars:
+            return True, self.vars[name]
+        q = self.cls + '.' + name
+        if q in self.mod.class_consts or q in self.mod.funcs:
+            ok, v = self.ev.class_attr(self.mod, self.cls, name)
+            if ok:
+                return True, v
+        return False, None
+
+
 def _quiet(*a, **k):
     return None
 
@@ -176,6 +195,7 @@ class PyEval:
         self.intr.update(intrinsics or {})
         self.steps, self.max_steps, self.max_depth = 0, max_steps, max_depth
         self._modenv = {}
+        self.cov = None          # set((module, line)) of the statements interpreted, when a rule asks for it
 
     # -- program structure --------------------------------------------------------------------
     def module(self, rel):
@@ -244,7 +264,7 @@ class PyEval:
             if q in mod.class_consts:
                 key = (mod.rel, q)
                 if key not in self._modenv:
-                    self._modenv[key] = self.expr(mod.class_consts[q], Env(), mod, None, 0)
+                    self._modenv[key] = self.expr(mod.class_consts[q], _ClassBodyEnv(self, mod, c), mod, None, 0)
                 return True, self._modenv[key]
             for b in mod.classes[c].bases:
                 if isinstance(b, ast.Name):
@@ -384,6 +404,8 @@ class PyEval:
         self.steps += 1
         if self.steps > self.max_steps:
             raise AnalysisError('abstract evaluation: step budget exhausted at %s' % self.L(mod, s))
+        if self.cov is not None:
+            self.cov.add((mod.rel, s.lineno))
         ev = lambda x: self.expr(x, env, mod, cls, depth)
         if isinstance(s, ast.Expr):
             ev(s.value)
